@@ -77,12 +77,20 @@ pub struct McPersist {
 	pub logger: Arc<McLogger>,
 }
 
+/// When set, every persister keeps all snapshots and the serialised updates (C12 / C06 need them).
+pub static KEEP_ALL: std::sync::atomic::AtomicBool = std::sync::atomic::AtomicBool::new(false);
+
 /// Payload of the panic used to model a crash in the middle of a handler.
 pub struct CrashNow;
 
 impl McPersist {
 	pub fn new(logger: Arc<McLogger>) -> Self {
-		McPersist { inner: Mutex::new(PersistInner::default()), logger }
+		let mut inner = PersistInner::default();
+		if KEEP_ALL.load(std::sync::atomic::Ordering::Relaxed) {
+			inner.keep_history = true;
+			inner.keep_update_bytes = true;
+		}
+		McPersist { inner: Mutex::new(inner), logger }
 	}
 
 	fn record(
